@@ -172,6 +172,31 @@ CHECKS = {
 
 NOT_YET = {}
 
+# scenario dimensions added after the first build (DESIGN.md §6 summary, §11 tables), appended to the level text
+ADDED = {
+    "C01": "ring rotations, boxes inside holes, float32 vertices above 2^23 with half-integer box corners, a 2^-20 grid, 70 001-element tiled arrays, permuted position lists, GeoSeries with a built index, Dask route",
+    "C02": "float64 points against float32 shapes, tiled arrays",
+    "C03": "answers held across later queries; the input array overwritten after the build",
+    "C04": "stepped slices; coordinates beyond 2^24 and a decimal scale",
+    "C05": "Dask left frames of 1-3 partitions",
+    "C07": "batches of non-power-of-two length, narrow coordinate dtypes",
+    "C08": "index built on the same object, partitioned frames incl. the parquet route, float32 half-grid image, one-element arrays",
+    "C09": "history modes in rotation: filtered, sorted, touched-filtered, repacked, indexed, dataset-bounded; float32 half-grid frames",
+    "C10": "12 non-empty outputs, 12 inputs, dense interior-empty patterns, packed-then-changed history",
+    "C11": "RangeIndex variants",
+    "C12": "cached-then-filtered writer, path reuse, fractional coordinates (bit-exact bounds), half-reversed boxes, stacked-point pack datasets",
+    "C13": "cached-then-filtered Dask frames, parquet provenance with / without metadata, blank partitions at any position, twelve stored partitions pruned by bounds=, tiled arrays",
+    "C14": "a translation by 3e8, tiled arrays, Dask route, elements with more rings than coordinates",
+    "C15": "already-oriented pieces, degenerate shells, 300 / 520 holes, int64 beyond 2^53, half-area rings in integer subtypes, tiled arrays",
+    "C16": "longer backings, permutation index lists, indexed sources, shift / repeat / dropna / fillna / insert / delete",
+    "C17": "an all-inert middle partition through parquet, inds= forms",
+    "C18": "interior-empty configurations under threads, ~70 000-element kernels in the differential matrix, concurrent packs of one frame",
+    "C19": "configurations with renumbering moves, both fault kinds at rare operations, stale-listing variants",
+    "C20": "in-place set_geometry, bounded re-read, frame / partition agreement after an inferred meta, source frame unchanged, joint compute, packing as action and observation, reordered columns=",
+}
+for _k, _v in ADDED.items():
+    CHECKS[_k]["text"] = CHECKS[_k]["text"] + " Added dimensions: " + _v + "."
+
 
 def build():
     props = [json.loads(l) for l in open(os.path.join(VERIF, "properties.jsonl"))]
